@@ -147,6 +147,13 @@ func refList(paths map[unsafe.Pointer]string, ns ...gedcom.Node) string {
 // views computes every derived view of a document, normalised to strings that
 // identify nodes by their position in the tree.
 func views(doc *gedcom.Document) (v map[string]string, err error) {
+	return viewsInOrder(doc, 0)
+}
+
+// viewsInOrder reads the same views; order != 0 reads the per-individual and
+// per-family accessors in the opposite order (unique identifiers first), since
+// a view may only be wrong when it is read after a particular other one.
+func viewsInOrder(doc *gedcom.Document, order int) (v map[string]string, err error) {
 	defer func() {
 		if r := recover(); r != nil {
 			err = fmt.Errorf("view panicked: %v", r)
@@ -212,32 +219,59 @@ func views(doc *gedcom.Document) (v map[string]string, err error) {
 	b.Reset()
 	for _, ind := range doc.Individuals() {
 		id := paths[nodePtr(ind)]
-		ns = nil
-		for _, x := range ind.Names() {
-			ns = append(ns, x)
+		ind := ind
+		readers := []func() string{
+			func() string {
+				var ns []gedcom.Node
+				for _, x := range ind.Names() {
+					ns = append(ns, x)
+				}
+				return fmt.Sprintf("%s.Names=%s\n", id, refList(paths, ns...))
+			},
+			func() string { return fmt.Sprintf("%s.AllEvents=%s\n", id, refList(paths, ind.AllEvents()...)) },
+			func() string {
+				var ns []gedcom.Node
+				for _, x := range ind.Families() {
+					ns = append(ns, x)
+				}
+				return fmt.Sprintf("%s.Families=%s\n", id, refList(paths, ns...))
+			},
+			func() string {
+				var ns []gedcom.Node
+				for _, x := range ind.Spouses() {
+					ns = append(ns, x)
+				}
+				return fmt.Sprintf("%s.Spouses=%s\n", id, refList(paths, ns...))
+			},
+			func() string {
+				var ns []gedcom.Node
+				for _, x := range ind.Parents() {
+					ns = append(ns, x)
+				}
+				return fmt.Sprintf("%s.Parents=%s\n", id, refList(paths, ns...))
+			},
+			func() string {
+				var ns []gedcom.Node
+				for _, x := range ind.Children() {
+					ns = append(ns, x)
+				}
+				return fmt.Sprintf("%s.Children=%s\n", id, refList(paths, ns...))
+			},
+			func() string {
+				return fmt.Sprintf("%s.UniqueIdentifiers=%v\n", id, ind.UniqueIdentifiers().Strings())
+			},
 		}
-		fmt.Fprintf(&b, "%s.Names=%s\n", id, refList(paths, ns...))
-		fmt.Fprintf(&b, "%s.AllEvents=%s\n", id, refList(paths, ind.AllEvents()...))
-		ns = nil
-		for _, x := range ind.Families() {
-			ns = append(ns, x)
+		out := make([]string, len(readers))
+		if order == 0 {
+			for i, f := range readers {
+				out[i] = f()
+			}
+		} else {
+			for i := len(readers) - 1; i >= 0; i-- {
+				out[i] = readers[i]()
+			}
 		}
-		fmt.Fprintf(&b, "%s.Families=%s\n", id, refList(paths, ns...))
-		ns = nil
-		for _, x := range ind.Spouses() {
-			ns = append(ns, x)
-		}
-		fmt.Fprintf(&b, "%s.Spouses=%s\n", id, refList(paths, ns...))
-		ns = nil
-		for _, x := range ind.Parents() {
-			ns = append(ns, x)
-		}
-		fmt.Fprintf(&b, "%s.Parents=%s\n", id, refList(paths, ns...))
-		ns = nil
-		for _, x := range ind.Children() {
-			ns = append(ns, x)
-		}
-		fmt.Fprintf(&b, "%s.Children=%s\n", id, refList(paths, ns...))
+		b.WriteString(strings.Join(out, ""))
 	}
 	v["Individual"] = b.String()
 
@@ -646,7 +680,8 @@ func applyReadOnly(t *testing.T, cr *CaseResult, prop string, ss *session, other
 	case "ro.query":
 		guard(func() {
 			query := pick2s(op.A, `.Nodes | Only(.Pointer = "S1")`, `.Families | Only(.Pointer = "F2")`, `.Nodes | Last(1)`, `.Families | First(1)`,
-				`.Individuals | Only(.Pointer = "I2") | .Families`, `Combine(.Families, .Families) | Length`, `.Nodes | Only(.Tag = "FAM")`,
+				`.Individuals | Only(.Pointer = "I2") | .Families`, `Combine(.Families, .Families) | Length`, `Combine(.Nodes | First(1), .Nodes | Last(1))`,
+				`Combine(.Families | First(1), .Families | Last(1))`, `Fs are .Families | First(1); Combine(Fs, .Families | Last(1)) | Length`, `.Nodes | Only(.Tag = "FAM")`,
 				`.Individuals | .Name | .String`, `.Individuals | { name: .Name | .String, born: .Birth | .String }`,
 				`.Families | { husband: .Husband | .String, wife: .Wife | .String }`, `.Individuals | .Spouses`, `.Individuals | .Parents`,
 				`.Individuals | Only(.IsLiving) | .Age`, `.Individuals | NodesWithTagPath("BIRT", "DATE")`, `.Families | .Children`)
@@ -736,7 +771,8 @@ func execHistory(t *testing.T, c *Case, cr *CaseResult, ops []HistOp, every bool
 		lives := make([]map[string]string, len(sessions))
 		liveErrs := make([]error, len(sessions))
 		for si, ss := range sessions {
-			lives[si], liveErrs[si] = views(ss.doc)
+			// (alternating: unique identifiers first on odd steps)
+			lives[si], liveErrs[si] = viewsInOrder(ss.doc, step%2)
 		}
 		// Reading the views is itself a read-only operation: a second pass
 		// right away (same caches, nothing in between) must give the same.
